@@ -90,13 +90,15 @@ def run(R):
     R.assume += ["bank module (cosmos-sdk v0.47.6) is modelled as journals of deltas with send/mint/burn primitives; validated on every run by replaying the bank events of each real step in the model",
                  "module operations are modelled as atomic effect lists; amounts that depend on unmodelled arithmetic (basket rates, spending-pool rates, collectives portions) are parameters of the model operations",
                  "AllocateTokens / fee refunds are modelled as paying only out of fees not already owed (guard of FcPayout/MsAllocate); the real reward path is driven by calling IncreasePoolRewards / SlashStakingPool on the deliver state",
+                 "genesis export / re-import inside histories: balances, supply and every module record must round-trip, except the record classes the genesis does not carry at all (layer2 dApp bonds, collectives bonds/donations: C12's known findings), pinned in Model/C04Check.v not_exported_kinds",
+                 "address rotation (both x/recovery messages) is driven but not modelled: judged by the ledger replay and the state clauses only",
                  "package-level `var ModuleName = \"...\"` declarations are taken as constants by the translator"]
     R.gen("gen_mintburn4", "MintBurnSites.v")
     R.coq_files(FILES)
     R.coq_property()
     R.audit()
     quick = R.tier == "quick"
-    n, blocks, ops = (60, 8, 6) if quick else (900, 12, 8)
+    n, blocks, ops = (60, 8, 6) if quick else (600, 12, 8)
     total_hist, total_steps = 0, 0
     obs = observe(R, n, blocks, ops)
     if obs:
